@@ -201,7 +201,7 @@ pub fn schema_sequence(types_ts: &str) -> Vec<(String, Vec<String>)> {
         let first = b.lines().next().unwrap_or("");
         if let Some(rest) = first.strip_prefix("export const ") {
             // the declared name: the identifier itself (a type annotation may follow it)
-            let name: String = rest.chars().take_while(|c| c.is_ascii_alphanumeric() || *c == '_' || *c == '$').collect();
+            let name: String = rest.chars().take_while(|c| c.is_alphanumeric() || *c == '_' || *c == '$').collect();
             if name.ends_with("Schema") && b.contains('=') {
                 let rhs = &b[b.find('=').unwrap_or(0)..];
                 out.push((name, schema_idents(&strip_deferred(rhs))));
@@ -263,9 +263,10 @@ fn schema_idents(s: &str) -> Vec<String> {
     let mut i = 0;
     while i < bytes.len() {
         let c = bytes[i] as char;
-        if c.is_ascii_alphabetic() || c == '_' || c == '$' {
+        // identifiers may be written in any script: every non-ASCII byte counts as a letter
+        if c.is_ascii_alphabetic() || c == '_' || c == '$' || bytes[i] >= 0x80 {
             let st = i;
-            while i < bytes.len() && ((bytes[i] as char).is_ascii_alphanumeric() || bytes[i] == b'_' || bytes[i] == b'$') {
+            while i < bytes.len() && ((bytes[i] as char).is_ascii_alphanumeric() || bytes[i] == b'_' || bytes[i] == b'$' || bytes[i] >= 0x80) {
                 i += 1;
             }
             let id = &s[st..i];
